@@ -173,8 +173,8 @@ class ListMapModel(Model):
             if n < CAP:
                 out += [("push", "o1", None), ("push", "oa", 1)]
             for i in self.idx_set(n):
-                out += [("read", "o1", i), ("remove", "o1", i), ("set", "oa", i, None), ("set", "o1", i, 2), ("isnil", "o1", i)]
-            out += [("reverse", "o1"), ("index_of", "o1", 1), ("clone", "oa", "o1"), ("len", "oa"), ("eq", "o1", "oa")]
+                out += [("read", "o1", i), ("remove", "o1", i), ("set", "oa", i, None), ("set", "o1", i, 2), ("isnil", "o1", i), ("nilis", "o1", i)]
+            out += [("reverse", "o1"), ("index_of", "o1", 1), ("index_of", "o1", None), ("index_of", "oa", 2), ("clone", "oa", "o1"), ("len", "oa"), ("eq", "o1", "oa")]
         elif tpl == "nested":
             n1 = st["n1"]
             n = len(n1.items)
@@ -256,6 +256,12 @@ class ListMapModel(Model):
             if not inrange(lst, op[2]):
                 return obs, True
             obs.append(show(lst.items[op[2]] is None))
+        elif k == "nilis":
+            lst = st[op[1]]
+            if not inrange(lst, op[2]):
+                return obs, True
+            obs.append(show(lst.items[op[2]] is None))
+            obs.append(show(lst.items[op[2]] is not None))
         elif k == "remove":
             lst = st[op[1]]
             if not inrange(lst, op[2]):
@@ -412,6 +418,8 @@ class ListMapModel(Model):
             s = with_idx(op[2], f"print {op[1]}[{iv}]\n")
         elif k == "isnil":
             s = with_idx(op[2], f"print {op[1]}[{iv}] == nil\n")
+        elif k == "nilis":
+            s = with_idx(op[2], f"print nil == {op[1]}[{iv}]\nprint nil != {op[1]}[{iv}]\n")
         elif k == "remove":
             s = with_idx(op[2], f"print {op[1]}.remove({iv})\n")
         elif k == "set":
